@@ -13,6 +13,8 @@ language semantics (`Sem.eval`, `Sem.srcFeasible`, DESIGN.md appendix A) for ALL
 variable with a usage mark — true of every model produced from a source text by the front end.
 -/
 import Rooc.Proofs.RefLemmas
+import Rooc.Proofs.RefMixedLemmas
+import Rooc.Proofs.RefDischarge
 import Rooc.Proofs.RatInst
 import Rooc.Proofs.Compose
 import Rooc.Proofs.ComposeExamples
@@ -21,6 +23,9 @@ import Rooc.Proofs.LinDExamples2
 import Rooc.Proofs.ComposeWF
 import Rooc.Proofs.ComposeSolver
 import Rooc.Proofs.ComposeSolverExamples
+import Rooc.Proofs.ComposeReturn
+import Rooc.Proofs.ComposeVarFree
+import Rooc.Proofs.ComposeVarFreeExamples
 namespace Rooc.Props.C03
 open Rooc Rooc.Sem Rooc.Ref Rooc.Exp
 
@@ -163,6 +168,18 @@ theorem refSolve_optimal_spec {m : Model (Ext K)} {v : K} {w : List (String × K
     obtain ⟨a, hmem', _, hobj⟩ := feasible_has_representative ha hc hf
     exact hbest (v', a) (mem_valList.2 ⟨hmem', by rw [hobj, hv']⟩)
 
+/-- when the reference answers `optimal`, the objective is DEFINED at every assignment that satisfies the model (otherwise
+the verdict would have been `undefinedObjective`). -/
+theorem refSolve_optimal_objective_defined {m : Model (Ext K)} {v : K} {w : List (String × K)}
+    (h : refSolve m = .optimal v w) (hc : Closed m = true) {ρ : String → K} (hf : srcFeasible m ρ = true) :
+    (eval ρ m.objective).isSome = true := by
+  have hout := refSolve_outcome m
+  rw [h] at hout
+  cases hout with
+  | optimal asg _ _ ha _ _ hall _ =>
+    obtain ⟨a, hmem, _, hobj⟩ := feasible_has_representative ha hc hf
+    rw [← hobj]; exact hall a hmem
+
 /-- the same in order notation: a reported minimum is `≤`, a reported maximum `≥`, the objective of every
 assignment that satisfies the model. -/
 theorem refSolve_optimal_le {m : Model (Ext K)} {v : K} {w : List (String × K)}
@@ -265,6 +282,118 @@ theorem refSolve_solution_iff {m : Model (Ext K)} {asg : List (List (String × K
     · exact ⟨lookup w, (refSolve_feasibleAny_spec h).2⟩
     · exact ⟨lookup w, (refSolve_optimal_spec h).2.1⟩
 
+/-! ### MIXED models: discrete declarations enumerated exactly, continuous residuals delegated
+
+`Ref.refSolveMixed sub m` (`Rooc/RefMixed.lean`) enumerates the used Boolean / IntegerRange declarations, substitutes each
+assignment `a` into the model (`Ref.residual a m`: a model over the continuous declarations only), asks `sub` about every
+residual and combines: any `unbounded` residual → `unbounded`; otherwise the best residual optimum (first best wins);
+`infeasible` iff every residual is.
+
+* DECIDED EXACTLY (proved here): the enumeration is complete and sound (`discreteAssignments_complete`,
+  `discreteAssignments_fixes`), substitution is evaluation under the overridden assignment (`residual_spec`), the
+  combination is an arg-min/arg-max over the residual optima.
+* DELEGATED: each continuous residual problem, to `sub`, under the contract `Ref.SubOK` (an answered verdict is right for
+  the residual; `unknown` promises nothing).  The contract is an explicit hypothesis per residual; rooc's own exact simplex
+  on the compiled residual meets it (`c03_slow_simplex_end_to_end_src_partial` below), and for a model WITHOUT continuous
+  declarations the residuals have no variables left and `refSolve` itself is the instance (`refSolve` never answers
+  `continuous` then).
+No `Closed` hypothesis is needed here (substitution handles every name); declared names pairwise distinct is
+(`IndexMap` keys). -/
+
+/-- the residual model at `ρ` is the model at `ρ` overridden by the discrete assignment: same feasibility, same
+objective. -/
+theorem residual_spec {m : Model (Ext K)} (hnd : (m.domain.map (·.name)).Nodup) {a : List (String × K)}
+    (ha : a ∈ discreteAssignments m.domain) (ρ : String → K) :
+    srcFeasible (residual a m) ρ = srcFeasible m (over a ρ) ∧
+    eval ρ (residual a m).objective = eval (over a ρ) m.objective :=
+  ⟨srcFeasible_residual (discreteAssignments_fixes hnd ha) ρ, objective_residual a m ρ⟩
+
+/-- completeness of the discrete enumeration: every assignment satisfying the model is a point of one of the residuals
+(with its own continuous values). -/
+theorem discrete_enumeration_complete {m : Model (Ext K)} (hnd : (m.domain.map (·.name)).Nodup) {ρ : String → K}
+    (hf : srcFeasible m ρ = true) :
+    ∃ a ∈ discreteAssignments m.domain, srcFeasible (residual a m) ρ = true ∧
+      eval ρ (residual a m).objective = eval ρ m.objective := by
+  obtain ⟨a, ha, hov⟩ := discreteAssignments_complete m.domain ρ (enumerated_inDomain_of_feasible hf)
+  obtain ⟨h1, h2⟩ := residual_spec hnd ha ρ
+  exact ⟨a, ha, by rw [h1, hov]; exact hf, by rw [h2, hov]⟩
+
+/-- `infeasible`: NO assignment satisfies the model. -/
+theorem refSolveMixed_infeasible_sound {sub : Model (Ext K) → SubVerdict K} {m : Model (Ext K)}
+    (hnd : (m.domain.map (·.name)).Nodup)
+    (hsub : ∀ a ∈ discreteAssignments m.domain, SubOK (residual a m) (sub (residual a m)))
+    (h : refSolveMixed sub m = .infeasible) : ∀ ρ : String → K, srcFeasible m ρ = false := by
+  intro ρ
+  cases hf : srcFeasible m ρ with
+  | false => rfl
+  | true =>
+    exfalso
+    have hout := refSolveMixed_outcome sub m
+    rw [h] at hout
+    cases hout with
+    | infeasible hall =>
+      obtain ⟨a, ha, hfa, _⟩ := discrete_enumeration_complete hnd hf
+      have := (hsub a ha).infeasible (hall a ha) ρ
+      rw [hfa] at this; cases this
+
+/-- `optimal v w`: the witness (discrete values, then the sub-solver's continuous values) satisfies the model, the
+objective there is `v`, and NO assignment satisfying the model has a strictly better objective. -/
+theorem refSolveMixed_optimal_spec {sub : Model (Ext K) → SubVerdict K} {m : Model (Ext K)}
+    (hnd : (m.domain.map (·.name)).Nodup)
+    (hsub : ∀ a ∈ discreteAssignments m.domain, SubOK (residual a m) (sub (residual a m)))
+    {v : K} {w : List (String × K)} (h : refSolveMixed sub m = .optimal v w) :
+    srcFeasible m (lookup w) = true ∧ eval (lookup w) m.objective = some v ∧
+    ∀ ρ : String → K, srcFeasible m ρ = true → ∀ v', eval ρ m.objective = some v' →
+      better m.optType v' v = false := by
+  have hout := refSolveMixed_outcome sub m
+  rw [h] at hout
+  cases hout with
+  | optimal _ _ hnu hnb hb =>
+    obtain ⟨hmem, hbest⟩ := Ref.best_spec hb
+    obtain ⟨a, ha, w', hs, rfl⟩ := mem_mixedVals.1 hmem
+    obtain ⟨hfw, hvw, _⟩ := (hsub a ha).optimal v w' hs
+    obtain ⟨r1, r2⟩ := residual_spec hnd ha (lookup w')
+    refine ⟨by rw [lookup_append, ← r1]; exact hfw, by rw [lookup_append, ← r2]; exact hvw, ?_⟩
+    intro ρ hf v' hv'
+    obtain ⟨a₂, ha₂, hfa₂, hobj₂⟩ := discrete_enumeration_complete hnd hf
+    cases hs₂ : sub (residual a₂ m) with
+    | unknown => exact absurd hs₂ (hnu a₂ ha₂)
+    | unbounded => exact absurd hs₂ (hnb a₂ ha₂)
+    | infeasible =>
+      have := (hsub a₂ ha₂).infeasible hs₂ ρ
+      rw [hfa₂] at this; cases this
+    | optimal v₂ w₂ =>
+      have h1 : better m.optType v' v₂ = false :=
+        ((hsub a₂ ha₂).optimal v₂ w₂ hs₂).2.2 ρ hfa₂ v' (by rw [hobj₂]; exact hv')
+      have h2 : better m.optType v₂ v = false := hbest (v₂, a₂ ++ w₂) (mem_mixedVals.2 ⟨a₂, ha₂, w₂, hs₂, rfl⟩)
+      exact better_neg_trans _ h1 h2
+
+/-- `unbounded`: assignments satisfying the model exist with objective beyond every bound. -/
+theorem refSolveMixed_unbounded_sound {sub : Model (Ext K) → SubVerdict K} {m : Model (Ext K)}
+    (hnd : (m.domain.map (·.name)).Nodup)
+    (hsub : ∀ a ∈ discreteAssignments m.domain, SubOK (residual a m) (sub (residual a m)))
+    (h : refSolveMixed sub m = .unbounded) :
+    ∀ M : K, ∃ (ρ : String → K) (v : K), srcFeasible m ρ = true ∧ eval ρ m.objective = some v ∧
+      better m.optType v M = true := by
+  intro M
+  have hout := refSolveMixed_outcome sub m
+  rw [h] at hout
+  cases hout with
+  | unbounded a _ ha hs =>
+    obtain ⟨ρ, v, hf, hv, hb⟩ := (hsub a ha).unbounded hs M
+    obtain ⟨r1, r2⟩ := residual_spec hnd ha ρ
+    exact ⟨over a ρ, v, by rw [← r1]; exact hf, by rw [← r2]; exact hv, hb⟩
+
+/-- conversely, when the sub-solver answers every residual (no `unknown`) and some assignment satisfies the model, the
+mixed reference does not say `infeasible`. -/
+theorem refSolveMixed_feasible_not_infeasible {sub : Model (Ext K) → SubVerdict K} {m : Model (Ext K)}
+    (hnd : (m.domain.map (·.name)).Nodup)
+    (hsub : ∀ a ∈ discreteAssignments m.domain, SubOK (residual a m) (sub (residual a m)))
+    {ρ : String → K} (hf : srcFeasible m ρ = true) : refSolveMixed sub m ≠ .infeasible := by
+  intro h
+  have := refSolveMixed_infeasible_sound hnd hsub h ρ
+  rw [hf] at this; cases this
+
 /-! ### Non-vacuity: concrete models at `K = ℚ`
 
 The verdicts are COMPUTED (`decide +kernel` on the running definitions, transferred to the theorems'
@@ -342,6 +471,76 @@ example : assignments exInf.domain =
     some [[("x", 0), ("y", 0)], [("x", 1), ("y", 0)], [("x", 2), ("y", 0)],
           [("x", 0), ("y", 1)], [("x", 1), ("y", 1)], [("x", 2), ("y", 1)]] := by
   rw [fieldExact_rat]; decide +kernel
+
+/-! #### a mixed model: `max x + b  s.t.  x <= 1 + b`, `b` Boolean (enumerated), `x` Real in `[0, 2]` (delegated) -/
+
+def exMixed : Model (Ext ℚ) :=
+  { optType := .max, objective := .bin .add x (.var "b"),
+    constraints := [c "c" x .le (.bin .add (n 1) (.var "b"))],
+    domain := [{ name := "b", ty := .bool, usage := 2 }, { name := "x", ty := .real (.fin 0) (.fin 2), usage := 2 }] }
+
+/-- a sub-solver that knows the two residuals of `exMixed` (`b = 0`: `max x + 0, x <= 1 + 0`; `b = 1`: `max x + 1, x <= 1 + 1`). -/
+def exSub (m' : Model (Ext ℚ)) : SubVerdict ℚ :=
+  match m'.objective with
+  | .bin .add _ (.num (.fin k)) => if k = 0 then .optimal 1 [("x", 1)] else if k = 1 then .optimal 3 [("x", 2)] else .unknown
+  | _ => .unknown
+
+example : refSolve exMixed = .continuous := by rw [fieldExact_rat]; decide +kernel
+example : discreteAssignments exMixed.domain = [[("b", 0)], [("b", 1)]] := by rw [fieldExact_rat]; decide +kernel
+example : refSolveMixed exSub exMixed = .optimal 3 [("b", 1), ("x", 2)] := by rw [fieldExact_rat]; decide +kernel
+
+/-- the contract `SubOK` HOLDS for `exSub` on both residuals (each is a one-variable LP, solved by hand) … -/
+theorem exSub_ok : ∀ a ∈ discreteAssignments exMixed.domain, SubOK (residual a exMixed) (exSub (residual a exMixed)) := by
+  intro a ha
+  have hd : discreteAssignments exMixed.domain = [[("b", 0)], [("b", 1)]] := by rw [fieldExact_rat]; decide +kernel
+  rw [hd] at ha
+  simp only [List.mem_cons, List.mem_nil_iff, or_false] at ha
+  rcases ha with rfl | rfl
+  · have hr : exSub (residual [("b", 0)] exMixed) = .optimal 1 [("x", 1)] := by
+      simp [exSub, residual, exMixed, substExp, x, bound, lookup]
+    rw [hr]
+    refine ⟨(fun h => by cases h), ?_, (fun h => by cases h)⟩
+    intro v w hvw
+    cases hvw
+    refine ⟨?_, ?_, ?_⟩
+    · simp [srcFeasible, residual, exMixed, substExp, x, n, c, bound, lookup, constraintHolds, Sem.eval, binVal, cmpK,
+        enumerated, domainValues, inDomain, geExt, leExt]
+    · simp [residual, exMixed, substExp, x, bound, lookup, Sem.eval, binVal]
+    · intro ρ hf v' hv'
+      simp [srcFeasible, residual, exMixed, substExp, x, n, c, bound, lookup, constraintHolds, Sem.eval, binVal, cmpK,
+        enumerated, domainValues] at hf hv'
+      subst hv'
+      have hx := hf.1
+      simp only [better, residual, exMixed, ef_lt, decide_eq_false_iff_not, not_lt]
+      linarith
+  · have hr : exSub (residual [("b", 1)] exMixed) = .optimal 3 [("x", 2)] := by
+      simp [exSub, residual, exMixed, substExp, x, bound, lookup]
+    rw [hr]
+    refine ⟨(fun h => by cases h), ?_, (fun h => by cases h)⟩
+    intro v w hvw
+    cases hvw
+    refine ⟨?_, ?_, ?_⟩
+    · simp [srcFeasible, residual, exMixed, substExp, x, n, c, bound, lookup, constraintHolds, Sem.eval, binVal, cmpK,
+        enumerated, domainValues, inDomain, geExt, leExt]
+      norm_num
+    · simp [residual, exMixed, substExp, x, bound, lookup, Sem.eval, binVal]
+      norm_num
+    · intro ρ hf v' hv'
+      simp [srcFeasible, residual, exMixed, substExp, x, n, c, bound, lookup, constraintHolds, Sem.eval, binVal, cmpK,
+        enumerated, domainValues] at hf hv'
+      subst hv'
+      have hx := hf.1
+      simp only [better, residual, exMixed, ef_lt, decide_eq_false_iff_not, not_lt]
+      linarith
+
+/-- … so `refSolveMixed_optimal_spec` applies: `b = 1, x = 2` satisfies `exMixed` with objective 3 and NO assignment
+(no rational `x`, no `b`) does better. -/
+example : srcFeasible exMixed (lookup [("b", (1 : ℚ)), ("x", 2)]) = true ∧
+    ∀ ρ : String → ℚ, srcFeasible exMixed ρ = true → ∀ v', eval ρ exMixed.objective = some v' →
+      better .max v' (3 : ℚ) = false := by
+  have h := refSolveMixed_optimal_spec (sub := exSub) (m := exMixed) (by decide) exSub_ok
+    (v := 3) (w := [("b", 1), ("x", 2)]) (by rw [fieldExact_rat]; decide +kernel)
+  exact ⟨h.1, h.2.2⟩
 
 end examples
 
@@ -870,6 +1069,216 @@ example (t : ℚ) (ht : 0 ≤ t) :
   have : v = 0 := by simpa [solBool] using hval.symm
   subst this
   exact ⟨hone, hs, w, hr⟩
+
+/-! #### the semantic hypothesis DISCHARGED for enumerable declarations
+
+`LogicModel m m.domain` quantifies over EVERY assignment satisfying the declared domains.  For Boolean / IntegerRange
+declarations it is a finite check (`Rooc/Proofs/RefDischarge.lean`): `SidesOK m` (decidable: declared used variables,
+finite literals) and `PointOK m (lookup a)` — every side defined with 0/1-valued and/or operands — at the enumerated
+assignments `a` only, because both depend only on the variables that occur and the enumeration is complete. -/
+
+theorem c03_logicModel_of_enumerated {m : Model (Ext K)} {asg : List (List (String × K))}
+    (ha : assignments m.domain = some asg) (hs : SidesOK m) (hp : ∀ a ∈ asg, PointOK m (lookup a)) :
+    LogicModel m m.domain := logicModel_of_enumerated ha hs hp
+
+/-- **property C03 for the default solver on discrete models, with the semantic contract replaced by its finite check**
+(`_partial`: `AssertShape`, `DeclOK` — both decidable —, the tolerance condition and the recorded assumption `SolverSpec`
+about microlp remain). -/
+theorem c03_default_solver_discrete_partial {solver : LinModel (Ext K) → MlpOutcome (Ext K)}
+    {m : Model (Ext K)} {t : K} (ht : 0 ≤ t) {maxSteps : Nat} {lm : LinModel (Ext K)}
+    (h : Compile.linearize m (.fin t) maxSteps = .ok lm)
+    {asg : List (List (String × K))} (ha : assignments m.domain = some asg)
+    (hs : SidesOK m) (hp : ∀ a ∈ asg, PointOK m (lookup a))
+    (hsh : AssertShape m) (hok : DeclOK m.domain) (ht1 : t < 1 ∨ NoIntegerVars m.domain)
+    (hspec : SolverSpec lm (solver lm)) :
+    (∀ sol, oneShot solver m t maxSteps = .ok sol → sol.status = .optimal →
+      srcFeasible m (assignmentOf sol) = true ∧
+      (m.optType ≠ .satisfy → ∃ v w, refSolve m = .optimal v w ∧ sol.value = .fin v) ∧
+      (m.optType = .satisfy → ∃ w, refSolve m = .feasibleAny w)) ∧
+    (oneShot solver m t maxSteps = .err "Infeasible" →
+      refSolve m = .infeasible ∧ ∀ ρ : String → K, srcFeasible m ρ = false) :=
+  c03_default_solver_logic_partial ht h (logicModel_of_enumerated ha hs hp) hsh hok ht1 ha hspec
+
+/-- the same with `DeclOK` replaced by its decidable form for discrete declarations (`Ref.DiscreteDeclOK`: Boolean, or an
+`IntegerRange` within `i32`, non-empty when never used) and distinct names: every hypothesis except the recorded assumption
+`SolverSpec` about microlp is now a FINITE CHECK on the model. -/
+theorem c03_default_solver_discrete_checked_partial {solver : LinModel (Ext K) → MlpOutcome (Ext K)}
+    {m : Model (Ext K)} {t : K} (ht : 0 ≤ t) {maxSteps : Nat} {lm : LinModel (Ext K)}
+    (h : Compile.linearize m (.fin t) maxSteps = .ok lm)
+    {asg : List (List (String × K))} (ha : assignments m.domain = some asg)
+    (hs : SidesOK m) (hp : ∀ a ∈ asg, PointOK m (lookup a))
+    (hsh : AssertShape m) (hnd : (m.domain.map (·.name)).Nodup) (hd : ∀ d ∈ m.domain, DiscreteDeclOK d)
+    (ht1 : t < 1 ∨ NoIntegerVars m.domain) (hspec : SolverSpec lm (solver lm)) :
+    (∀ sol, oneShot solver m t maxSteps = .ok sol → sol.status = .optimal →
+      srcFeasible m (assignmentOf sol) = true ∧
+      (m.optType ≠ .satisfy → ∃ v w, refSolve m = .optimal v w ∧ sol.value = .fin v) ∧
+      (m.optType = .satisfy → ∃ w, refSolve m = .feasibleAny w)) ∧
+    (oneShot solver m t maxSteps = .err "Infeasible" →
+      refSolve m = .infeasible ∧ ∀ ρ : String → K, srcFeasible m ρ = false) :=
+  c03_default_solver_discrete_partial ht h ha hs hp hsh (declOK_of_discrete hnd hd) ht1 hspec
+
+/-- non-vacuity of the decidable declaration check. -/
+example : DeclOK (exBool : Model (Ext ℚ)).domain :=
+  declOK_of_discrete (by decide) (by
+    intro d hd
+    simp only [Compose.exBool, List.mem_cons, List.mem_nil_iff, or_false] at hd
+    rcases hd with rfl | rfl <;> exact Or.inl rfl)
+
+/-- non-vacuity: the finite check succeeds on `exBool` (`min x s.t. x ≤ y`, Booleans). -/
+example : LogicModel (exBool : Model (Ext ℚ)) (exBool : Model (Ext ℚ)).domain := by
+  refine c03_logicModel_of_enumerated
+    (asg := [[("x", 0), ("y", 0)], [("x", 1), ("y", 0)], [("x", 0), ("y", 1)], [("x", 1), ("y", 1)]])
+    (by rw [fieldExact_rat]; decide +kernel) ?_ ?_
+  · intro e he
+    simp only [sides, Compose.exBool, List.flatMap_cons, List.flatMap_nil, List.mem_cons, List.mem_nil_iff,
+      List.append_nil, or_false] at he
+    rcases he with rfl | rfl | rfl | rfl <;> simp [Exp.vars, usedNames, Compose.exBool, finiteLits]
+  · intro a _ e he
+    simp only [sides, Compose.exBool, List.flatMap_cons, List.flatMap_nil, List.mem_cons, List.mem_nil_iff,
+      List.append_nil, or_false] at he
+    rcases he with rfl | rfl | rfl | rfl <;> simp [LogicOperands01, Sem.eval]
+
+/-- **the same, stated on the DIFFED model of `RoocSolver::solve_using(auto_solver)`** (`Pipeline.solveUsingAuto`,
+`Rooc/Pipeline.lean`: `Linearizer::linearize` with `map_err(Linearization)`, `auto_solver` with `map_err(Solver)`; compared
+arm by arm and `LpSolution` by `LpSolution` with the real entry point on every run of `./check C03`).  Under the assumption
+`SolverSpec` about microlp for the model the pipeline compiles: `Ok(sol)` labelled Optimal ⇒ `sol` satisfies the source and
+carries the reference's optimum; `Err(Solver(Infeasible))` ⇒ the reference says `infeasible` and no assignment satisfies the
+source. -/
+theorem c03_solve_using_logic_partial {solver : LinModel (Ext K) → MlpOutcome (Ext K)}
+    {m : Model (Ext K)} {t : K} (ht : 0 ≤ t) {maxSteps : Nat}
+    (hm : LogicModel m m.domain) (hsh : AssertShape m) (hok : DeclOK m.domain)
+    (ht1 : t < 1 ∨ NoIntegerVars m.domain)
+    {asg : List (List (String × K))} (ha : assignments m.domain = some asg)
+    (hspec : ∀ lm, Compile.linearize m (.fin t) maxSteps = .ok lm → SolverSpec lm (solver lm)) :
+    (∀ lm sol, Pipeline.solveUsingAuto m (.fin t) maxSteps solver = .solved lm sol → sol.status = .optimal →
+      srcFeasible m (assignmentOf sol) = true ∧
+      (m.optType ≠ .satisfy → ∃ v w, refSolve m = .optimal v w ∧ sol.value = .fin v) ∧
+      (m.optType = .satisfy → ∃ w, refSolve m = .feasibleAny w)) ∧
+    (Pipeline.solveUsingAuto m (.fin t) maxSteps solver = .solver "Infeasible" →
+      refSolve m = .infeasible ∧ ∀ ρ : String → K, srcFeasible m ρ = false) := by
+  refine ⟨fun lm sol hp hst => ?_, fun hp => ?_⟩
+  · obtain ⟨hc, hone⟩ := pipeline_solved hp
+    exact (c03_default_solver_logic_partial ht hc hm hsh hok ht1 ha (hspec lm hc)).1 sol hone hst
+  · obtain ⟨lm, hc, hone⟩ := pipeline_solver hp
+    exact (c03_default_solver_logic_partial ht hc hm hsh hok ht1 ha (hspec lm hc)).2 hone
+
+/-- **no assumption at all on the variable-free branch**: when the compiled model has no domain entry (a source without
+used variables — constants only), `auto_solver` decides it itself and `SolverSpec` is a THEOREM (`Compose.
+solverSpec_varFree`, `ComposeWF.varFree_of_compile` from C08), whatever the external solver would answer.  So for such
+sources the pipeline's answer IS the reference's verdict, unconditionally. -/
+theorem c03_solve_using_varfree_logic_partial {solver : LinModel (Ext K) → MlpOutcome (Ext K)}
+    {m : Model (Ext K)} {t : K} (ht : 0 ≤ t) {maxSteps : Nat} {lm : LinModel (Ext K)}
+    (h : Compile.linearize m (.fin t) maxSteps = .ok lm) (hdom : lm.domain = [])
+    (hm : LogicModel m m.domain) (hsh : AssertShape m) (hok : DeclOK m.domain)
+    (ht1 : t < 1 ∨ NoIntegerVars m.domain)
+    {asg : List (List (String × K))} (ha : assignments m.domain = some asg) :
+    (∀ sol, oneShot solver m t maxSteps = .ok sol → sol.status = .optimal →
+      srcFeasible m (assignmentOf sol) = true ∧
+      (m.optType ≠ .satisfy → ∃ v w, refSolve m = .optimal v w ∧ sol.value = .fin v) ∧
+      (m.optType = .satisfy → ∃ w, refSolve m = .feasibleAny w)) ∧
+    (oneShot solver m t maxSteps = .err "Infeasible" →
+      refSolve m = .infeasible ∧ ∀ ρ : String → K, srcFeasible m ρ = false) :=
+  c03_default_solver_logic_partial ht h hm hsh hok ht1 ha
+    (solverSpec_varFree (ComposeWF.varFree_of_compile h hok.nodup (ComposeWF.finiteLits_of_logicModel hm) hdom) _)
+
+/-- non-vacuity (`K = ℚ`, every tolerance, every step limit, EVERY external solver): `min 3`.  The pipeline returns the
+variable-free `lmConst`, rooc answers `value = 3` without consulting the solver, and the reference agrees. -/
+example (solver : LinModel (Ext ℚ) → MlpOutcome (Ext ℚ)) (t : ℚ) (ht : 0 ≤ t) (n : Nat) :
+    oneShot solver (exConst : Model (Ext ℚ)) t n = .ok (SolverWrap.lpSolutionNew [] (.fin 3) []) ∧
+    ∃ w, refSolve (exConst : Model (Ext ℚ)) = .optimal 3 w := by
+  have hc := exConst_compile (K := ℚ) (.fin t) n
+  have hone : oneShot solver (exConst : Model (Ext ℚ)) t n = .ok (SolverWrap.lpSolutionNew [] (.fin 3) []) := by
+    rw [oneShot_ok hc]; simp [SolverWrap.wrapAuto, lmConst]
+  obtain ⟨hsol, _⟩ := c03_solve_using_varfree_logic_partial (solver := solver) ht hc rfl
+    (LogicModel.ofFragModel exConst_frag) (assertShape_of_fragModel exConst_frag) exConst_declOK
+    (Or.inr (fun d hd => by simp [exConst] at hd)) (asg := [[]]) (by simp [exConst, assignments])
+  obtain ⟨_, hv, _⟩ := hsol _ hone rfl
+  obtain ⟨v, w, hr, hval⟩ := hv (by simp [exConst])
+  have : v = 3 := by simpa [SolverWrap.lpSolutionNew] using hval.symm
+  subst this
+  exact ⟨hone, w, hr⟩
+
+/-! ### any answer honouring the contract, judged against the SOURCE semantics (no enumerability needed), and the
+fully proved instance: `Compile.linearize` ∘ `to_standard_form` ∘ `into_tableau` ∘ step loop ∘ `as_lp_solution` -/
+
+/-- **a returned `LpSolution`, read by variable name, is a source optimum.**  `res` is whatever a solver path hands back
+for the compiled `lm`, `AnswerSpec lm res` the contract on it (assumption for microlp / Clarabel, theorem for rooc's
+simplex).  Then a solution labelled `Optimal` — its assignment by NAME, the compiler's auxiliaries simply being extra
+names — satisfies the source model, its reported value IS the source objective there, no satisfying assignment is
+strictly better; and `Infeasible` means that no assignment satisfies the source. -/
+theorem c03_answer_src_logic_partial {m : Model (Ext K)} {t : K} (ht : 0 ≤ t) {maxSteps : Nat} {lm : LinModel (Ext K)}
+    (h : Compile.linearize m (.fin t) maxSteps = .ok lm)
+    (hm : LogicModel m m.domain) (hsh : AssertShape m) (hok : DeclOK m.domain)
+    (ht1 : t < 1 ∨ NoIntegerVars m.domain) {res : Res (Ext K)} (hspec : AnswerSpec lm res) :
+    (∀ sol, res = .ok sol → sol.status = .optimal →
+      srcFeasible m (assignmentOf sol) = true ∧
+      ∃ v, sol.value = .fin v ∧ eval (assignmentOf sol) m.objective = some v ∧
+        ∀ ρ : String → K, srcFeasible m ρ = true → ∀ u, eval ρ m.objective = some u → better m.optType u v = false) ∧
+    (res = .err "Infeasible" → ∀ ρ : String → K, srcFeasible m ρ = false) := by
+  refine ⟨fun sol hsol hst => ?_, fun herr =>
+    (c03_compile_infeasible_logic_partial ht h hm hsh hok ht1).mp (hspec.infeasible herr)⟩
+  obtain ⟨ho, w, hw, hobj⟩ := hspec.optimal sol hsol hst
+  obtain ⟨hs', he, _, hbest⟩ := c03_compile_optimal_logic_partial ht h hm hsh hok ht1 ho
+  rw [hobj] at he
+  exact ⟨hs', w, hw, he, fun ρ hρ u hu => hbest ρ hρ u w hu he⟩
+
+/-- **the fully proved instance — rooc's own simplex path, end to end, in terms of the returned `LpSolution`.**
+Source model under the contract, compiled by the whole pipeline; `to_standard_form` succeeds on the result; `into_tableau`
+(tolerance `tol > 0`, either start) returns a tableau under the decidable `StartFacts`; the step loop at exact comparisons
+stops `Finished`.  Then the `LpSolution` handed back (`as_lp_solution` on `variables_values`, value `optimal_value`), read
+by variable name, satisfies the SOURCE model, reports the source objective at that assignment, and nothing satisfying the
+source is strictly better.  No assumption about a solver is left; what is left about computed data is decidable:
+`DomainFormat lm` (see `ComposeWF.lean`), `plainName` for the NON-FREE variables of `lm` (the known prefix-collision
+finding of `as_lp_solution`; free variables may carry any name), `StartFacts`. -/
+theorem c03_slow_simplex_returned_solution_partial {m : Model (Ext K)} {t : K} (ht : 0 ≤ t) {maxSteps : Nat}
+    {lm : LinModel (Ext K)} (h : Compile.linearize m (.fin t) maxSteps = .ok lm)
+    (hm : LogicModel m m.domain) (hsh : AssertShape m) (hok : DeclOK m.domain)
+    (ht1 : t < 1 ∨ NoIntegerVars m.domain)
+    {s : StdModel (Ext K)} (hs : Standardize.standardize lm = .ok s) (hfmt : ComposeWF.DomainFormat lm)
+    (hpl : ∀ v ∈ StdLayout.keep (StdSpec.flags lm) lm.vars, ComposeNames.plain v = true)
+    {tol : K} (htol : 0 < tol) (stallExtra phase1Limit : Nat)
+    (hfacts : ComposeSimplex.StartFacts tol stallExtra phase1Limit (ComposeSimplex.stdK s))
+    {T : Tab K} (hT : @Tableau.intoTableau K (exactArith K) tol stallExtra phase1Limit (ComposeSimplex.stdK s) = .ok T)
+    (limit : Nat) (prefer : List Nat)
+    (hfin : (@Tableau.solve K (exactArith K) 0 stallExtra limit prefer T).result = .ok ()) :
+    srcFeasible m (assignmentOf (ComposeSimplex.returnedSolution s
+      (@Tableau.solve K (exactArith K) 0 stallExtra limit prefer T).final)) = true ∧
+    ∃ v, (ComposeSimplex.returnedSolution s (@Tableau.solve K (exactArith K) 0 stallExtra limit prefer T).final).value
+        = .fin v ∧
+      eval (assignmentOf (ComposeSimplex.returnedSolution s
+        (@Tableau.solve K (exactArith K) 0 stallExtra limit prefer T).final)) m.objective = some v ∧
+      ∀ ρ : String → K, srcFeasible m ρ = true → ∀ u, eval ρ m.objective = some u → better m.optType u v = false := by
+  obtain ⟨hW, hnn, hdv, hnd⟩ := ComposeWF.compiled_wf h hok.nodup (ComposeWF.finiteLits_of_logicModel hm) hs hfmt
+  have hc := ComposeSimplex.intoTableau_canonicalFor htol hW hs stallExtra phase1Limit hfacts hT
+  have hspec := ComposeReturn.simplex_answerSpec hW hnn hdv hnd hpl hs hc stallExtra limit prefer hfin
+  exact (c03_answer_src_logic_partial ht h hm hsh hok ht1 hspec).1 _ rfl rfl
+
+open Rooc.ComposeSem Rooc.ComposeSimplex in
+/-- non-vacuity (`K = ℚ`, every tolerance `t ≥ 0` of the bound inference, step limit 0; simplex tolerance `1e-5` for the
+start): `max x s.t. c: x ≤ 2`, `x` NonNegativeReal.  EVERY hypothesis of `c03_slow_simplex_returned_solution_partial` is
+established — compile (symbolic run), standard form (kernel), `DomainFormat`, plain names, `StartFacts`, the tableau
+`into_tableau` returns (evaluated), the loop's verdict (evaluated) — and the theorem says: the returned `LpSolution` read
+by name satisfies the source and reports a value `v` that no satisfying assignment exceeds. -/
+example (t : ℚ) (ht : 0 ≤ t) :
+    srcFeasible exSrc (assignmentOf (ComposeSimplex.returnedSolution exMaxStd exTM')) = true ∧
+    ∃ v, (ComposeSimplex.returnedSolution exMaxStd exTM').value = .fin v ∧
+      ∀ ρ : String → ℚ, srcFeasible exSrc ρ = true → ∀ u, eval ρ exSrc.objective = some u → u ≤ v := by
+  have hfmt : ComposeWF.DomainFormat exMax := by
+    refine ⟨?_, ?_, exMax_nnok⟩ <;> intro d hd lo hi hty <;>
+      simp only [exMax, List.mem_singleton] at hd <;> subst hd <;> simp at hty
+    obtain ⟨rfl, rfl⟩ := hty
+    simp [StdSem.isFin]
+  have hpl : ∀ v ∈ exMax.vars, ComposeNames.plain v = true := by
+    intro v hv; simp only [exMax, List.mem_singleton] at hv; subst hv; decide
+  have h := c03_slow_simplex_returned_solution_partial ht (exSrc_compile (.fin t)) (LogicModel.ofFragModel exSrc_frag)
+    (assertShape_of_fragModel exSrc_frag) exSrc_declOK (Or.inr exSrc_noInt) exMax_std hfmt
+    (fun v hv => hpl v ((ComposeNames.keep_sublist _ _).subset hv))
+    (tol := (1/100000 : ℚ)) (by norm_num) 1 10 exMax_startFacts exMax_intoTableau 10 [] exTM'_solve.1
+  rw [exTM'_solve.2] at h
+  obtain ⟨hs, v, hv, _, hbest⟩ := h
+  refine ⟨hs, v, hv, fun ρ hρ u hu => ?_⟩
+  have := hbest ρ hρ u hu
+  simpa [exSrc, better_max] using this
 
 end DefaultSolver
 end Composition
